@@ -214,6 +214,14 @@ def run_grid(ctx, case):
                     forms.append(('set/2.0', (2, 0), lambda u, v1=v1: rig.op_set_attribute(u, name, v1)))
                     for cur in (False, True):
                         forms.append(('modify/2.0', (2, 0), lambda u, v1=v1, v2=v2, cur=cur: rig.op_modify_attribute_20(u, name, v1, v2, cur)))
+                    # a current attribute that is another attribute than the new one
+                    other = rng.choice([x for x in G.SUPPORTED_FACTORY_ATTRS if x != name])
+                    ov = G.attr_value_for(rng, other)
+                    if ov is not None:
+                        forms.append(('modify/2.0-other-current', (2, 0), lambda u, v1=v1, other=other, ov=ov: (
+                            enums.Operation.MODIFY_ATTRIBUTE, rig.payloads.ModifyAttributeRequestPayload(
+                                unique_identifier=u, current_attribute=rig.cobjects.CurrentAttribute(attribute=rig.core_attr_value(other, ov)),
+                                new_attribute=rig.cobjects.NewAttribute(attribute=rig.core_attr_value(name, v1))))))
                         forms.append(('delete/2.0', (2, 0), lambda u, v2=v2, cur=cur: rig.op_delete_attribute_20(
                             u, name, v2, has_current=cur, reference=not cur)))
                 for label, version, mk in forms:
